@@ -336,7 +336,12 @@ def fam_c09(tier, seed):
     items = _dedup(items + cross_reservation_family())
     sks = _number("m", items)
     rep = [it for it in items if len(it[0]) <= 3]
+    # report level, two SELL lines of A on one day with a SELL (or BUY) of B standing between them: one disposal of A
     sks += _number("r", rep, level="report")
+    # (concrete numbers: the obligation is structural, and five symbolic lines at report level took ten minutes)
+    for k, l in enumerate(([["B", "A", 0], ["B", "B", 0], ["S", "A", 30], ["S", "B", 30], ["S", "A", 30]],
+                           [["B", "A", 0], ["B", "B", 0], ["S", "A", 1], ["B", "B", 1], ["S", "A", 1]])):
+        sks.append(mk(k, "s", l, base=BASES[0], level="report", mode="", wit=WIT))
     return sks
 
 
@@ -750,6 +755,11 @@ SPECS.update({
                 assumptions=["figures in text are located by the line formats of cgt-formatter-plain; a figure whose separators or sign are misplaced fails to map back and is reported", "exempt amounts are the embedded table's constants"],
                 outside=["PDF (Decimal -> f64 -> Typst)", "MCP: stdio transport, request routing, concurrency (the calculate_report / explain_matching handlers themselves are executed)", "digit grouping for magnitudes the solver does not choose (the grouping code runs on the literal)"]),
 })
+
+
+from . import c17extra  # noqa: E402
+
+SPECS["C17"]["extra_engines"] = [c17extra.kani_round]
 
 
 # ---------------------------------------------------------------------------------------------- FX
